@@ -1407,7 +1407,8 @@ def _batch8() -> Dict[str, List[V]]:
         V("registry-domain-kept-across-evaluations", S, "Variable._reset_only_my_cache_", "            self._domain_source_ = None\n            self._domain_ = HashedIterable()\n", "            pass\n", rule="REG-LIVE"),
         V("selected-only-variable-not-reset", S, "QueryObjectDescriptor._reset_only_my_cache_",
           "        for selected_variable in self.selected_variables:\n            for variable in selected_variable._all_variable_instances_:\n                variable._reset_only_my_cache_()\n", "", rule="REG-LIVE"),
-        V("registration-probes-the-instance", PR, "instantiate_class_and_update_cache", "HashedValue(instance, id(instance))", "HashedValue(instance)", rule="REG-NO-PROBE"),
+        # behaviour-preserving since 99b6078: a wrapper without an identifier no longer looks `_id_` up on the wrapped object (type test)
+        V("twin-registration-wraps-without-identifier", PR, "instantiate_class_and_update_cache", "HashedValue(instance, id(instance))", "HashedValue(instance)", kind="twin"),
     ]
     return {
         "C03": neg + reentrant[:1],
@@ -1539,4 +1540,125 @@ def _batch9() -> Dict[str, List[V]]:
 
 
 for _pid, _vs in _batch9().items():
+    REGISTRY[_pid] = _merged(REGISTRY[_pid], (lambda vs: (lambda: vs))(_vs))
+
+
+# --------------------------------------------------------------------------------------------------------------------
+# batch 10: the mechanisms of round 6 (each next to a behaviour-preserving twin where one exists)
+def _batch10() -> Dict[str, List[V]]:
+    index = [
+        V("retrieve-asks-the-coverage-record-first", CD, "IndexedCache.retrieve", "        if cache is None:\n            cache = self.cache\n",
+          "        if cache is None:\n            if not self.check(assignment):\n                return\n            cache = self.cache\n", rule="RETRIEVE-TRIE-ONLY"),
+        V("coverage-record-drops-the-more-general-bindings", CD, "SeenSet.add", "            self.seen.append(assignment)\n",
+          "            self.seen = [c for c in self.seen if not all(k in assignment and assignment[k] == v for k, v in c.items())]\n            self.seen.append(assignment)\n",
+          rule="COVERAGE-MONOTONE"),
+        V("twin-coverage-record-drops-what-the-new-binding-subsumes", CD, "SeenSet.add", "            self.seen.append(assignment)\n",
+          "            self.seen = [c for c in self.seen if not all(k in c and c[k] == v for k, v in assignment.items())]\n            self.seen.append(assignment)\n",
+          kind="twin"),
+    ]
+    live = [
+        V("conclusion-reset-visits-the-concluded-variable-only", "conclusion", "Conclusion._reset_cache_", "for variable in self.value._all_variable_instances_:",
+          "for variable in self.var._all_variable_instances_:", rule="REG-LIVE"),
+        V("twin-conclusion-reset-visits-all-its-variables", "conclusion", "Conclusion._reset_cache_", "for variable in self.value._all_variable_instances_:",
+          "for variable in self._all_variable_instances_:", kind="twin"),
+        V("registry-domain-kept-when-nothing-was-pulled", S, "Variable._reset_only_my_cache_", "        if self._domain_is_the_registry_:\n",
+          "        if self._domain_is_the_registry_ and self._domain_.values:\n", rule="REG-LIVE"),
+    ]
+    table = [
+        V("indexable-object-taken-for-a-collection", "utils", "is_iterable", "return hasattr(obj, \"__iter__\") and not isinstance",
+          "return (hasattr(obj, \"__iter__\") or hasattr(obj, \"__getitem__\")) and not isinstance", rule="COLLECTION-TABLE"),
+        V("strings-are-collections", "utils", "is_iterable", "(str, type, bytes, bytearray)", "(type, bytes, bytearray)", rule="COLLECTION-TABLE"),
+        V("twin-collection-test-operands-swapped", "utils", "is_iterable", "return hasattr(obj, \"__iter__\") and not isinstance(obj, (str, type, bytes, bytearray))",
+          "return not isinstance(obj, (str, type, bytes, bytearray)) and hasattr(obj, \"__iter__\")", kind="twin"),
+    ]
+    sentinel = [
+        V("none-result-taken-for-the-end-of-results", S, "An.evaluate",
+          "                    try:\n                        result = next(results)\n                    except StopIteration:\n                        break\n                    result = self._process_result_(result)\n                yield result\n",
+          "                    result = next(results, None)\n                    if result is not None:\n                        result = self._process_result_(result)\n                if result is None:\n                    break\n                yield result\n",
+          rule="VALUE-NOT-TESTED"),
+        V("twin-end-of-results-tested-on-the-row", S, "An.evaluate",
+          "                    try:\n                        result = next(results)\n                    except StopIteration:\n                        break\n                    result = self._process_result_(result)\n",
+          "                    result = next(results, None)\n                    if result is None:\n                        break\n                    result = self._process_result_(result)\n",
+          kind="twin"),
+        V("none-entry-taken-for-no-entry", S, "Index._apply_mapping_", "        yield HashedValue(id_=value.id_, value=value.value[self._key_])\n",
+          "        item = value.value.get(self._key_) if isinstance(value.value, dict) else value.value[self._key_]\n        if item is None:\n            return\n        yield HashedValue(id_=value.id_, value=item)\n",
+          rule="VALUE-NOT-TESTED"),
+        V("completion-of-for-all-rows-in-condition-mode", S, "ForAll._bind_unbound_condition_variables_", "var.value._evaluate_as_value_(copy(binding))", "var.value._evaluate__(copy(binding))",
+          rule="VALUE-TRUTH"),
+    ]
+    head = [
+        V("quantified-head-argument-replaced-by-its-variable", PR, "symbol.symbolic_new", "            var = Variable(symbolic_cls.__name__, symbolic_cls, _kwargs_=kwargs,",
+          "            kwargs = {k: v._var_ if isinstance(v, ResultQuantifier) else v for k, v in kwargs.items()}\n            var = Variable(symbolic_cls.__name__, symbolic_cls, _kwargs_=kwargs,",
+          rule="QUANT-NOT-STRIPPED"),
+    ]
+    selector = [
+        V("alternative-drops-rows-by-the-variables-of-the-conclusions", "conclusion_selector", "Alternative",
+          "    def _is_duplicate_output_(self, output: Dict[int, HashedValue]) -> bool:\n        # For alternatives, avoid suppressing outputs based solely on variable values,\n        # as different branches may yield different conclusions for the same bindings.\n        # Let ConclusionSelector.update_conclusion handle deduplication of conclusions.\n        return False\n",
+          "", rule="SELECTOR-ROW-DEDUP"),
+    ]
+    replay = [
+        V("and-evaluates-as-well-after-a-replay", S, "AND._evaluate__",
+          "                                                                  yield_when_false=yield_when_false)\n                    continue\n",
+          "                                                                  yield_when_false=yield_when_false)\n", rule="REPLAY-OR-EVALUATE"),
+        V("and-ends-after-a-replay", S, "AND._evaluate__",
+          "                                                                  yield_when_false=yield_when_false)\n                    continue\n",
+          "                                                                  yield_when_false=yield_when_false)\n                    return\n", rule="REPLAY-OR-EVALUATE"),
+    ]
+    args = [
+        V("selected-list-copied-only-when-it-is-not-a-list", "entity", "_extract_variables_and_expression", "    selected_variables = list(selected_variables)\n",
+          "    if not isinstance(selected_variables, list):\n        selected_variables = list(selected_variables)\n", rule="ARG-NOT-MUTATED"),
+        V("twin-selected-list-copied-by-a-comprehension", "entity", "_extract_variables_and_expression", "    selected_variables = list(selected_variables)\n",
+          "    selected_variables = [v for v in selected_variables]\n", kind="twin"),
+    ]
+    rows = [
+        V("variable-hands-out-memoised-binding-dicts", S, "Variable.__iter__", "            yield {self._id_: HashedValue(v)}\n",
+          "            memo = self.__dict__.setdefault(\"_bindings_\", {})\n            if v.id_ not in memo:\n                memo[v.id_] = {self._id_: HashedValue(v)}\n            yield memo[v.id_]\n",
+          rule="ROW-NOT-RETAINED"),
+        V("twin-variable-builds-the-binding-in-a-local", S, "Variable.__iter__", "            yield {self._id_: HashedValue(v)}\n",
+          "            row = {self._id_: HashedValue(v)}\n            yield row\n", kind="twin"),
+    ]
+    trackers = [
+        V("one-tracker-for-true-and-false-rows", S, "SymbolicExpression._is_duplicate_output_", "{True: SeenSet(), False: SeenSet()})", "dict.fromkeys((True, False), SeenSet()))",
+          rule="DEDUP-TRACKERS-DISTINCT"),
+    ]
+    forall = [
+        V("for-all-accumulates-the-uncompleted-row", S, "ForAll._evaluate__", "for k, v in complete_val.items() if k in self.condition_unique_variable_ids}",
+          "for k, v in condition_val.items() if k in self.condition_unique_variable_ids}", rule="FORALL-TOTAL-ROWS"),
+        V("completion-stops-after-one-variable", S, "ForAll._bind_unbound_condition_variables_", "                    yield from self._bind_unbound_condition_variables_(extended_binding)\n",
+          "                    yield extended_binding\n", rule="FORALL-TOTAL-ROWS"),
+    ]
+    failure = [
+        V("multiple-solutions-message-looks-keys-up", "failures", "MultipleSolutionFound.__init__",
+          "        super(MultipleSolutionFound, self).__init__(\n            f\"Multiple solutions found, the first two are {first_val}\\n{second_val}\"\n        )",
+          "        differing = {var_id: (value, second_val[var_id]) for var_id, value in first_val.items() if second_val[var_id] != value}\n        super(MultipleSolutionFound, self).__init__(f\"Multiple solutions found, the first two differ in {differing}\")",
+          rule="FAILURE-CTOR-TOTAL"),
+        V("twin-multiple-solutions-message-with-get", "failures", "MultipleSolutionFound.__init__",
+          "        super(MultipleSolutionFound, self).__init__(\n            f\"Multiple solutions found, the first two are {first_val}\\n{second_val}\"\n        )",
+          "        differing = {var_id: (value, second_val.get(var_id)) for var_id, value in first_val.items() if second_val.get(var_id) != value}\n        super(MultipleSolutionFound, self).__init__(f\"Multiple solutions found, the first two differ in {differing}\")",
+          kind="twin"),
+    ]
+    ident = [
+        V("identifier-taken-from-any-object-that-has-an-id-attribute", HD, "HashedValue.__post_init__", "            elif isinstance(self.value, IdentifiedByItself):\n",
+          "            elif hasattr(self.value, \"_id_\"):\n", rule="VALUE-IDENTITY"),
+    ]
+    return {
+        "C01": ident + replay + trackers,
+        "C02": replay + args + rows + trackers + ident,
+        "C03": trackers + replay[:1],
+        "C04": replay,
+        "C05": replay + trackers,
+        "C06": failure + ident + live[2:],
+        "C10": forall + ident + replay[:1] + live[2:],
+        "C11": head,
+        "C12": selector,
+        "C13": table + args + ident,
+        "C14": live + ident,
+        "C16": table[:1],
+        "C18": forall + replay,
+        "C19": sentinel,
+        "C20": index,
+    }
+
+
+for _pid, _vs in _batch10().items():
     REGISTRY[_pid] = _merged(REGISTRY[_pid], (lambda vs: (lambda: vs))(_vs))
